@@ -1,8 +1,11 @@
 package h
 
 import (
+	"bytes"
+	"crypto/ecdsa"
 	"crypto/sha256"
 	"math/big"
+	"math/rand"
 
 	"github.com/MinterTeam/minter-go-node/coreV2/check"
 	"github.com/MinterTeam/minter-go-node/coreV2/transaction"
@@ -25,6 +28,9 @@ type TxSpec struct {
 	Signer   *Key         // single signature
 	Multisig *MultisigAcc // multi signature: signed by Signers (default: all owners)
 	Signers  []*Key
+	// SignRand: when set, a signer that appears a second time signs with a fresh random ECDSA nonce, i.e. attaches a
+	// DIFFERENT valid signature of the same key (a duplicate check keyed by signature bytes would not notice)
+	SignRand *rand.Rand
 }
 
 // Encode builds and signs the transaction bytes.
@@ -49,7 +55,14 @@ func (s *TxSpec) Encode() []byte {
 		if signers == nil {
 			signers = s.Multisig.Owners
 		}
+		seen := map[*Key]bool{}
 		for _, k := range signers {
+			if seen[k] && s.SignRand != nil {
+				h := tx.Hash()
+				tx.SetSignature(SignRandomK(k, h[:], s.SignRand))
+				continue
+			}
+			seen[k] = true
 			if err := tx.Sign(k.Priv); err != nil {
 				panic(err)
 			}
@@ -127,4 +140,32 @@ func CheckProof(password string, redeemer types.Address) (proof [65]byte) {
 	}
 	copy(proof[:], sig)
 	return
+}
+
+// SignRandomK signs hash with an ECDSA nonce drawn from r (not the deterministic RFC 6979 one): a second, different,
+// valid low-S signature of the same key over the same hash. Returns r||s||v (65 bytes, v = recovery id).
+func SignRandomK(k *Key, hash []byte, r *rand.Rand) []byte {
+	curve := crypto.S256()
+	n := curve.Params().N
+	half := new(big.Int).Rsh(n, 1)
+	for {
+		rr, ss, err := ecdsa.Sign(r, k.Priv, hash)
+		if err != nil {
+			panic(err)
+		}
+		if ss.Cmp(half) > 0 {
+			ss.Sub(n, ss)
+		}
+		sig := make([]byte, 65)
+		rb, sb := rr.Bytes(), ss.Bytes()
+		copy(sig[32-len(rb):32], rb)
+		copy(sig[64-len(sb):64], sb)
+		want := crypto.FromECDSAPub(&k.Priv.PublicKey)
+		for v := byte(0); v < 2; v++ {
+			sig[64] = v
+			if pub, err := crypto.Ecrecover(hash, sig); err == nil && bytes.Equal(pub, want) {
+				return sig
+			}
+		}
+	}
 }
